@@ -60,6 +60,60 @@ _arith('uint', 'u64')
 
 ARITH_TWINS = [k for k in KANI if k.startswith('arith_')]
 
+TF = 'rscel/src/context/type_funcs.rs'
+DF = 'rscel/src/context/default_funcs.rs'
+
+
+def _conv(name, vars_, claim, expr=None, bind=None, oracle=None, fns=()):
+    KANI[name] = dict(inject=TF, module='type_funcs.rs', fq=f'context::type_funcs::verif_kani_types::{name}', exhaustive=True, functions=list(fns), claim=claim, vars=vars_,
+                      replay=(dict(expr=expr, bind=bind, oracle=oracle) if expr else None))
+
+
+_conv('conv_int_of_uint', [('u', 'u64')], 'int(uint) preserves the number when it is representable and fails otherwise', 'int(a)', lambda v: {'a': {'uint': str(v['u'])}}, lambda v: exact('int', v['u']), ['int_type::methods::int(u64)'])
+_conv('conv_int_of_int', [('i', 'i64')], 'int(int) is the identity', 'int(a)', lambda v: {'a': {'int': str(v['i'])}}, lambda v: exact('int', v['i']), ['int_type::methods::int(i64)'])
+_conv('conv_int_of_bool', [('b', 'bool')], 'int(bool) is 0/1', 'int(a)', lambda v: {'a': {'bool': 'true' if v['b'] else 'false'}}, lambda v: exact('int', 1 if v['b'] else 0), ['int_type::methods::int(bool)'])
+_conv('conv_int_of_double', [('f', 'f64')], 'int(double) truncates toward zero, saturating, NaN -> 0', fns=['int_type::methods::int(f64)'])
+_conv('conv_uint_of_int', [('i', 'i64')], 'uint(int) preserves the number when it is not negative and fails otherwise', 'uint(a)', lambda v: {'a': {'int': str(v['i'])}}, lambda v: exact('uint', v['i']), ['uint_type::methods::uint(i64)'])
+_conv('conv_uint_of_uint', [('u', 'u64')], 'uint(uint) is the identity', 'uint(a)', lambda v: {'a': {'uint': str(v['u'])}}, lambda v: exact('uint', v['u']), ['uint_type::methods::uint(u64)'])
+_conv('conv_uint_of_bool', [('b', 'bool')], 'uint(bool) is 0/1', fns=['uint_type::methods::uint(bool)'])
+_conv('conv_uint_of_double', [('f', 'f64')], 'uint(double) truncates toward zero, saturating above; only negative or NaN input may be rejected', fns=['uint_type::methods::uint(f64)'])
+_conv('conv_double_of_int', [('i', 'i64')], 'double(int) is the nearest double', fns=['double_type::methods::double(i64)'])
+_conv('conv_double_of_uint', [('u', 'u64')], 'double(uint) is the nearest double', fns=['double_type::methods::double(u64)'])
+_conv('conv_double_of_bool', [('b', 'bool')], 'double(bool) is 0.0/1.0', fns=['double_type::methods::double(bool)'])
+_conv('conv_double_of_double', [('f', 'f64')], 'double(double) is the identity, bit for bit', fns=['double_type::methods::double(f64)'])
+CONV = [k for k in KANI if k.startswith('conv_')]
+
+
+def _math(name, vars_, claim, expr=None, bind=None, oracle=None, fns=(), bound=None, kani_args=()):
+    KANI[name] = dict(inject=DF, module='default_funcs.rs', fq=f'context::default_funcs::verif_kani_funcs::{name}', exhaustive=(bound is None), bound=bound, functions=list(fns), claim=claim, vars=vars_,
+                      kani_args=list(kani_args), replay=(dict(expr=expr, bind=bind, oracle=oracle) if expr else None))
+
+
+def _ilog(n, base):
+    r = 0
+    while base ** (r + 1) <= n:
+        r += 1
+    return r
+
+
+_math('math_abs_int', [('n', 'i64')], 'abs(int) is |n|, an error for the one value whose absolute value is not representable', 'abs(a)', lambda v: {'a': {'int': str(v['n'])}}, lambda v: exact('int', abs(v['n'])), ['math::abs(i64)'])
+_math('math_abs_uint', [('n', 'u64')], 'abs(uint) is the identity', fns=['math::abs(u64)'])
+_math('math_abs_double', [('f', 'f64')], 'abs(double) is IEEE fabs, bit for bit', fns=['math::abs(f64)'])
+_math('math_lg_int', [('n', 'i64')], 'lg(int) = floor(log2 n) for n > 0, an error otherwise', 'lg(a)', lambda v: {'a': {'int': str(v['n'])}}, lambda v: ('error',) if v['n'] <= 0 else ('value', 'int', _ilog(v['n'], 2)), ['math::lg(i64)'])
+_math('math_lg_uint', [('n', 'u64')], 'lg(uint) = floor(log2 n) for n > 0, an error for 0', 'lg(a)', lambda v: {'a': {'uint': str(v['n'])}}, lambda v: ('error',) if v['n'] <= 0 else ('value', 'uint', _ilog(v['n'], 2)), ['math::lg(u64)'])
+_math('math_log_int', [('n', 'i64')], 'log(int) = floor(log10 n) for n > 0, an error otherwise', 'log(a)', lambda v: {'a': {'int': str(v['n'])}}, lambda v: ('error',) if v['n'] <= 0 else ('value', 'int', _ilog(v['n'], 10)), ['math::log(i64)'])
+_math('math_log_uint', [('n', 'u64')], 'log(uint) = floor(log10 n) for n > 0, an error for 0', 'log(a)', lambda v: {'a': {'uint': str(v['n'])}}, lambda v: ('error',) if v['n'] <= 0 else ('value', 'uint', _ilog(v['n'], 10)), ['math::log(u64)'])
+_math('math_floor_double', [('f', 'f64')], 'floor(double) is the IEEE floor converted to int (saturating, NaN -> 0)', fns=['math::floor(f64)'])
+_math('math_ceil_double', [('f', 'f64')], 'ceil(double) is the IEEE ceil converted to int (saturating, NaN -> 0)', fns=['math::ceil(f64)'])
+_math('math_round_double', [('f', 'f64')], 'round(double) is the IEEE round-half-away converted to int (saturating, NaN -> 0)', fns=['math::round(f64)'])
+_math('math_floor_ceil_round_int', [('n', 'i64')], 'floor/ceil/round of an int are the identity', fns=['math::floor(i64)', 'math::ceil(i64)', 'math::round(i64)'])
+_math('math_sqrt_double', [('f', 'f64')], 'sqrt(double) is IEEE sqrt, bit for bit', fns=['math::sqrt(f64)'])
+_math('math_pow_int_small_exponent', [('b', 'i64'), ('e', 'i64')], 'pow(int, int) is exact or an error (exponents below 4 only)', 'pow(a, b)', lambda v: {'a': {'int': str(v['b'])}, 'b': {'int': str(v['e'])}},
+      lambda v: ('error',) if v['e'] < 0 else exact('int', v['b'] ** v['e']), ['math::pow(i64,i64)'], bound='exponent < 4, loop unwound 8 times')
+_math('math_pow_int_negative_or_huge_exponent_is_error', [('b', 'i64'), ('e', 'i64')], 'pow(int, int) with a negative exponent or one beyond 32 bits is an error', 'pow(a, b)',
+      lambda v: {'a': {'int': str(v['b'])}, 'b': {'int': str(v['e'])}}, lambda v: ('error',), ['math::pow(i64,i64)'])
+MATH = [k for k in KANI if k.startswith('math_')]
+
 PROPS = {
     'C12': dict(
         units=['interp', 'macros', 'interp_vm_g0', 'interp_vm_g7'],
@@ -91,11 +145,11 @@ PROPS = {
         assumptions=[],
     ),
     'C04': dict(
-        units=['value_cmp', 'value_arith'],
+        units=['value_cmp', 'value_arith', 'builtins'],
         not_covered=['double comparisons in Verus (result kind only; Kani float twins decide the order laws)',
                      'element-wise list equality and map equality (std::iter::zip / HashMap iteration have no Verus support: those two match arms are dropped, see rewrites)',
                      'laws of the string/bytes/timestamp/duration orders are std\'s and chrono\'s Ord (assumed)'],
-        assumptions=['min/max/sort are decided in unit builtins (see functions_under_contract)'],
+        assumptions=['sort: the comparator is ord; that slice::sort_by with a total order returns an ordered permutation is std\'s contract (not under contract here)'],
     ),
     'C05': dict(
         units=['value_cmp', 'value_arith', 'interp_vm_g0', 'interp_vm_g1'],
